@@ -615,6 +615,11 @@ func c08Run(c *Ctx, k thriftCase) {
 				return
 			}
 		}
+		for _, i := range []int{0, 1, len(b) / 2, len(b) - 1} {
+			if i >= 0 && i <= len(b) {
+				c08Readers(c, k, p, b[:i], fail)
+			}
+		}
 		// trailing bytes are reported
 		c.Eval(1)
 		if _, derr, pan := decode(append(append([]byte(nil), b...), 0), false); pan != "" || derr == nil {
@@ -638,6 +643,7 @@ func c08Run(c *Ctx, k thriftCase) {
 		if pan != "" {
 			fail("Decoder.Decode(strict, mutated)", "error or value, no panic", pan+fmt.Sprintf(" bytes=%x", b))
 		}
+		c08Readers(c, k, p, b, fail)
 	case "missing-required":
 		// drop each required field from the written content: MissingField
 		for i, f := range k.Layout {
@@ -716,6 +722,69 @@ func c08Run(c *Ctx, k thriftCase) {
 				fail("Decoder.Decode(strict, wrong wire type inside a nested struct)", "TypeMismatch", fmt.Sprintf("err=%v %s field=%d bytes=%x", derr, pan, k.Layout[i].ID, b))
 			}
 		}
+	}
+}
+
+// c08Readers: every method of the protocol's Reader on the bytes, each on a reader of its own, and a walk that
+// keeps calling methods until the first error: no panic, and what is allocated stays within a constant factor of
+// the bytes that are really there (lengths and counts are read from the input)
+func c08Readers(c *Ctx, k thriftCase, p thrift.Protocol, b []byte, fail func(api, w, g string)) {
+	calls := []struct {
+		name string
+		f    func(r thrift.Reader) error
+	}{
+		{"ReadBool", func(r thrift.Reader) error { _, e := r.ReadBool(); return e }},
+		{"ReadInt8", func(r thrift.Reader) error { _, e := r.ReadInt8(); return e }},
+		{"ReadInt16", func(r thrift.Reader) error { _, e := r.ReadInt16(); return e }},
+		{"ReadInt32", func(r thrift.Reader) error { _, e := r.ReadInt32(); return e }},
+		{"ReadInt64", func(r thrift.Reader) error { _, e := r.ReadInt64(); return e }},
+		{"ReadFloat64", func(r thrift.Reader) error { _, e := r.ReadFloat64(); return e }},
+		{"ReadBytes", func(r thrift.Reader) error { _, e := r.ReadBytes(); return e }},
+		{"ReadString", func(r thrift.Reader) error { _, e := r.ReadString(); return e }},
+		{"ReadLength", func(r thrift.Reader) error { _, e := r.ReadLength(); return e }},
+		{"ReadMessage", func(r thrift.Reader) error { _, e := r.ReadMessage(); return e }},
+		{"ReadField", func(r thrift.Reader) error { _, e := r.ReadField(); return e }},
+		{"ReadList", func(r thrift.Reader) error { _, e := r.ReadList(); return e }},
+		{"ReadSet", func(r thrift.Reader) error { _, e := r.ReadSet(); return e }},
+		{"ReadMap", func(r thrift.Reader) error { _, e := r.ReadMap(); return e }},
+	}
+	bound := uint64(14*1024*len(b) + 1<<20)
+	c.Eval(len(calls))
+	var pan, where string
+	run := func() {
+		for i, call := range calls {
+			where = call.name
+			pan = protect(func() {
+				call.f(p.NewReader(bytes.NewReader(b)))
+				// a walk: this method, then the others in turn, until the first error
+				r := p.NewReader(bytes.NewReader(b))
+				for j := 0; j < 64; j++ {
+					if calls[(i+j*5)%len(calls)].f(r) != nil {
+						break
+					}
+				}
+			})
+			if pan != "" {
+				return
+			}
+		}
+	}
+	var alloc uint64
+	if newRng(c.Seed, string(b)).intn(8) == 0 { // metering stops the world: one input in eight
+		meterMu.Lock()
+		alloc = allocDuring(run)
+		meterMu.Unlock()
+	} else {
+		meterMu.RLock()
+		run()
+		meterMu.RUnlock()
+	}
+	if pan != "" {
+		fail("Reader."+where, "an error or a value, no panic", pan+fmt.Sprintf(" bytes=%x", b))
+		return
+	}
+	if alloc > bound {
+		fail("Reader methods", fmt.Sprintf("allocation <= %d for %d bytes", bound, len(b)), fmt.Sprintf("%d bytes=%x", alloc, b))
 	}
 }
 
